@@ -79,13 +79,34 @@ def _do_load(op, profile=False):
 
     saved_knob = _rr.RAISE_RANGE_ERRORS_ON_READ
     _rr.RAISE_RANGE_ERRORS_ON_READ = bool(op.get("strict_read", False))
+    # configuration knob: the application's log level (DEBUG makes the library's debug paths run)
+    import logging
+
+    rvlog = logging.getLogger("rv")
+    saved_level = rvlog.level
+    if op.get("debug_log"):
+        rvlog.setLevel(logging.DEBUG)
     try:
-        return _do_load_inner(op, ctx, data, how, name, flag0)
+        cm = op.get("ctxmgr")
+        if cm is None:
+            return _do_load_inner(op, ctx, data, how, name, flag0)
+        # the application wraps the load in the library's own public context manager, entered from
+        # the opposite setting: what "before the call" means is then the value the manager installed
+        rv.errors.RAISE_CONTROLLER_VALUE_ERRORS = not bool(cm)
+        with rv.errors.override_raise_controller_value_errors(bool(cm)):
+            inner_before = rv.errors.RAISE_CONTROLLER_VALUE_ERRORS
+            res = _do_load_inner(op, ctx, data, how, name, inner_before, set_flag=False)
+        outer_after = rv.errors.RAISE_CONTROLLER_VALUE_ERRORS
+        ctx_, _, after, exit_, obj = res
+        if outer_after is not (not bool(cm)):
+            after = ("outer:%r" % outer_after)  # reported as a flag_restored violation by the caller
+        return ctx_, inner_before, after, exit_, obj
     finally:
         _rr.RAISE_RANGE_ERRORS_ON_READ = saved_knob
+        rvlog.setLevel(saved_level)
 
 
-def _do_load_inner(op, ctx, data, how, name, flag0):
+def _do_load_inner(op, ctx, data, how, name, flag0, set_flag=True):
     obj = None
     src = None
     if how in ("clone", "clone_module"):
@@ -99,7 +120,8 @@ def _do_load_inner(op, ctx, data, how, name, flag0):
         except BaseException:
             src = None
         env.LOG.take()
-        rv.errors.RAISE_CONTROLLER_VALUE_ERRORS = flag0
+        if set_flag:
+            rv.errors.RAISE_CONTROLLER_VALUE_ERRORS = flag0
         if src is None or (how == "clone_module" and type(src).__name__ != "Synth"):
             how = "file"
         else:
@@ -237,12 +259,12 @@ def execute(case):
 # the fault space of one file
 
 
-def profile(spec, how):
+def profile(spec, how, debug_log=False):
     """Fault-free instrumented load: seam calls per stream, stream sizes."""
     simio.install()
     saved = rv.errors.RAISE_CONTROLLER_VALUE_ERRORS
     try:
-        ctx, _, _, exit_, _ = _do_load({"k": "load", "file": spec, "how": how, "flag0": True}, profile=True)
+        ctx, _, _, exit_, _ = _do_load({"k": "load", "file": spec, "how": how, "flag0": True, "debug_log": debug_log}, profile=True)
     finally:
         rv.errors.RAISE_CONTROLLER_VALUE_ERRORS = saved
     env.LOG.take()
@@ -254,9 +276,9 @@ def profile(spec, how):
     return per, sizes, datas, exit_
 
 
-def fault_space(spec, how, dense_limit=3000, stride=7):
+def fault_space(spec, how, dense_limit=3000, stride=7, debug_log=False):
     """Every single-fault plan for this (file, access mode): the property's quantifier."""
-    per, sizes, datas, _ = profile(spec, how)
+    per, sizes, datas, _ = profile(spec, how, debug_log)
     plans = [[]]  # fault-free
     for sid in sorted(per):
         calls = per[sid]
@@ -382,6 +404,15 @@ def plan(tier, seed):
         units.append({"kind": "sweep", "file": spec, "how": "path", "flag0": False, "calls_only": True, "strict_read": True})
     for spec in gen_specs(tier, seed):
         units.append({"kind": "sweep", "file": spec, "how": "path", "flag0": True, "calls_only": True, "sample": 400})
+    # the same sweeps under other configurations: DEBUG logging; the load wrapped in the public context manager
+    cfg_files = by_size[:4] + [s_ for s_ in by_size if "metamodule.sunsynth" == s_["name"] or "sampler" in s_["name"]]
+    if tier != "quick":
+        cfg_files = by_size
+    for spec in cfg_files:
+        units.append({"kind": "sweep", "file": spec, "how": "file", "flag0": True, "debug_log": True, "calls_only": True})
+        units.append({"kind": "sweep", "file": spec, "how": "path", "flag0": False, "debug_log": True, "calls_only": True})
+        units.append({"kind": "sweep", "file": spec, "how": "file", "flag0": True, "ctxmgr": True, "calls_only": True})
+        units.append({"kind": "sweep", "file": spec, "how": "path", "flag0": True, "ctxmgr": False, "calls_only": True})
     # loads that happen inside Container.clone() / Module.clone(): faults on the scratch buffer
     clone_files = [s_ for s_ in by_size if s_["name"].endswith(".sunvox")] + [s_ for s_ in by_size if "metamodule" in s_["name"] or "sampler" in s_["name"]]
     clone_synths = by_size[:6] + [s_ for s_ in by_size if "metamodule" in s_["name"] or "sampler" in s_["name"]]
@@ -425,7 +456,8 @@ def generate(seed, i, tier="quick"):
                     faults = faults + [f for f in r.choice(plans) if f not in faults]
             elif r.random() < 0.5:
                 faults = seeded_flips(spec, how, r.randrange(1 << 30), 1)[0]
-            ops.append({"k": "load", "file": spec, "how": how, "flag0": r.random() < 0.5, "faults": faults, "strict_read": r.random() < 0.15})
+            ops.append({"k": "load", "file": spec, "how": how, "flag0": r.random() < 0.5, "faults": faults, "strict_read": r.random() < 0.15,
+                        "debug_log": r.random() < 0.15, "ctxmgr": r.choice([None, None, None, None, True, False])})
         elif x < 0.9:
             ops.append({"k": "probe", "sel": r.randrange(6)})
         else:
@@ -451,7 +483,7 @@ def run_unit(unit):
     kind = unit["kind"]
     if kind == "sweep":
         spec, how, flag0 = unit["file"], unit["how"], unit["flag0"]
-        plans = fault_space(spec, how)
+        plans = fault_space(spec, how, debug_log=bool(unit.get("debug_log")))
         if unit.get("calls_only"):
             plans = [p for p in plans if not p or p[0]["kind"] != "trunc"]
         if unit.get("sample") and len(plans) > unit["sample"]:
@@ -461,7 +493,7 @@ def run_unit(unit):
             case = {
                 "property": PROPERTY,
                 "world": "loader",
-                "ops": [{"k": "load", "file": spec, "how": how, "flag0": flag0, "faults": p, "strict_read": bool(unit.get("strict_read"))}, {"k": "probe", "sel": 0}],
+                "ops": [{"k": "load", "file": spec, "how": how, "flag0": flag0, "faults": p, "strict_read": bool(unit.get("strict_read")), "debug_log": bool(unit.get("debug_log")), "ctxmgr": unit.get("ctxmgr")}, {"k": "probe", "sel": 0}],
             }
             acc.run(execute, case)
         acc.probes["sweep_complete:%s" % how] += 1
